@@ -36,6 +36,7 @@ RULE_DOC = {
     'R12': 'tail expression `E.iter().any(|v| C)` -> `for i in 0..E.len() { let v = &E[i]; if C { return true } } false`',
     'R13': '`for x in &mut E {` -> `for i in 0..E.len() { let x = &mut E[i];` (std: iter_mut visits the elements in index order)',
     'R17': '`let v: Vec<T> = E.iter().map(|&x| F).collect();` -> `let mut v = Vec::new(); for i in 0..E.len() { let x = E[i]; v.push(F); }`',
+    'R8t': 'tail `M.values().filter(|p| C).map(|q| E).min().unwrap_or_else(|| D)` -> `let mut m__: Option<T> = None; for (k__r, p) in M.iter() { if (C) { let q = p; m__ = opt_min(m__, E); } } match m__ { Some(x__) => x__, None => D }` (same fold as R8; unwrap_or_else spelled as a match)',
     'R20': '`M.entry(K).or_default().push(V);` -> `entry_or_default_push(&mut M, K, V);` - the three chained std calls are outlined into a helper whose body is the same chain; its contract (append V to the bucket of K, creating the bucket if absent; other keys untouched) is ASSUMED (std HashMap entry API), listed under trusted',
     'R21': '`E.iter().filter(|t| P).cloned().collect()` (block tail) -> `{ let src__ = &E; let mut out__: Vec<T> = Vec::new(); for t in src__.iter() { if P { out__.push(t.clone()); } } out__ }` (P verbatim; `t` is `&T` instead of `&&T`, auto-deref makes no difference for method calls)',
     'R19': 'tail `E.into_iter().map(f).collect()` (f a function path) -> `let src = E; let mut out = Vec::new(); for i in 0..src.len() { out.push(f(src[i])); } out`',
@@ -259,6 +260,27 @@ class Piece:
                % (var, (': ' + ty) if ty else '', ind, fm.group(1), m.group(1), ind, fm.group(2).strip(), mm.group(1), fm.group(1), var, fold, var, mm.group(2).strip(), ind))
         self.text = text[:m.start()] + new + text[end + 1:]
         self._fired('R8', '%s of filtered/mapped map values -> loop + %s' % (names[3], fold))
+        return self
+
+    def R8t(self, ty):
+        """tail `M.values().filter(|p| C).map(|q| E).min().unwrap_or_else(|| D)` -> fold loop + match"""
+        try:
+            ts, end, recv, calls = self._tail_chain(['values', 'filter', 'map', 'min', 'unwrap_or_else'])
+            fold = 'opt_min'
+        except LostAnchor:
+            ts, end, recv, calls = self._tail_chain(['values', 'filter', 'map', 'max', 'unwrap_or_else'])
+            fold = 'opt_max'
+        text = self.text
+        fm = re.match(r'\s*\|(\w+)\|\s*(.*)$', calls[1][1], re.S)
+        mm = re.match(r'\s*\|(\w+)\|\s*(.*)$', calls[2][1], re.S)
+        dm = re.match(r'\s*\|\|\s*(.*)$', calls[4][1], re.S)
+        if not fm or not mm or not dm:
+            raise LostAnchor('rule R8t in %s: closure shape' % self.label)
+        ind = re.match(r'[ \t]*', text[_line_start(text, ts):]).group(0)
+        new = ('let mut m__: %s = None;\n%sfor (k__r, %s) in %s.iter() {\n%s    if (%s) { let %s = %s; m__ = %s(m__, %s); }\n%s}\n%smatch m__ { Some(x__) => x__, None => %s }'
+               % (ty, ind, fm.group(1), recv, ind, fm.group(2).strip(), mm.group(1), fm.group(1), fold, mm.group(2).strip(), ind, ind, dm.group(1).strip()))
+        self.text = text[:ts] + new + text[end:]
+        self._fired('R8t', 'min of filtered/mapped map values with default (tail) -> loop + opt_min + match')
         return self
 
     def R9(self, var):
